@@ -285,7 +285,7 @@ class Connector:
         # to make firewall configs easier
         # TODO: retain listening port between connection generations?
         ep = serverFromString(self._reactor, "tcp:0")
-        f = InboundConnectionFactory(self)
+        f = InboundConnectionFactory(self, self._track_pending_connection)
         d = ep.listen(f)
 
         def _listening(lp):
@@ -387,13 +387,17 @@ class Connector:
         d = ep.connect(f)
         # fires with protocol, or ConnectError
 
-        def _connected(p):
-            self._pending_connections.add(p)
-            # c might not be in _pending_connections, if it turned out to be a
-            # winner, which is why we use discard() and not remove()
-            p.when_disconnected().addCallback(self._pending_connections.discard)
-        d.addCallback(_connected)
+        d.addCallback(self._track_pending_connection)
         return d
+
+    def _track_pending_connection(self, p):
+        # every connection that is still negotiating (outbound or inbound) is
+        # remembered here, so stop() and select_and_stop_remaining() can
+        # close it
+        self._pending_connections.add(p)
+        # c might not be in _pending_connections, if it turned out to be a
+        # winner, which is why we use discard() and not remove()
+        p.when_disconnected().addCallback(self._pending_connections.discard)
 
     # Connection selection. All instances of DilatedConnectionProtocol which
     # look viable get passed into our add_contender() method.
@@ -440,6 +444,8 @@ def describe_inbound(addr):
 @attrs(repr=False)
 class InboundConnectionFactory(ServerFactory):
     _connector = attrib(validator=provides(IDilationConnector))
+    # called with each protocol we build for an accepted connection
+    _on_protocol = attrib(default=None)
 
     def __repr__(self):
         return f"InboundConnectionFactory({self._connector._role})"
@@ -448,4 +454,6 @@ class InboundConnectionFactory(ServerFactory):
         description = describe_inbound(addr)
         p = self._connector.build_protocol(addr, description)
         p.factory = self
+        if self._on_protocol is not None:
+            self._on_protocol(p)
         return p
